@@ -44,6 +44,7 @@ Qed.
    and does not touch CheckRedirect; C() installs DefaultRedirectPolicy *)
 Lemma client_source_shape :
   checkredirect_assignments = 1 /\
+  httpclient_field_assignments = 1 /\
   set_policy_empty_is_noop = true /\
   set_policy_installs_closure_over_argument = true /\
   set_policy_copies_argument = true /\
